@@ -543,6 +543,11 @@ func blockContainerLayout(context *layoutContext, box_ Box, bottomSpace pr.Float
 			positionY = pr.Max(maxFloatPositionY, positionY)
 		}
 		newBox.Height = positionY - newBox.ContentBoxY()
+		if collapsingThrough {
+			// the margins collapse through the (empty) box: positionY has not moved past them,
+			// and a negative collapsed margin would be turned into a positive height
+			newBox.Height = pr.Float(0)
+		}
 	}
 
 	if newBox.Style.GetPosition().String == "relative" {
